@@ -274,11 +274,16 @@ def std_rewrites(ident=("numpy.asarray", "numpy.array", "pyrepseq.util.ensure_nu
 
 # --------------------------------------------------------------------------- loop-closed terms
 def close_loops(summary, term, _seen=None):
-    """Replace loop-id carrying terms by self-contained folds so that two summaries can be compared structurally:
-      ('after', lid, name) -> ('fold', kind, iterable, init, step)   with ('phi', lid, n) -> ('acc', k) and the loop element -> ('elem', iterable)
-      ('iter', lid, it)    -> ('elem', it)
-    Accumulator indices k are positions in the sorted list of the loop's carried names that the step actually mentions."""
+    """Replace loop-id carrying terms by self-contained forms so that two summaries can be compared structurally:
+      ('after', lid, name)        -> ('fold', kind, depth, iterable, init, step, extra)  with ('phi', lid, n) -> ('acc', depth, k)
+      ('iter', lid, it)           -> ('elem', depth, it)         depth = nesting depth of the loop (distinguishes nested loops over equal iterables)
+      ('loopret', lid, body, rest)-> ('floop', kind, depth, iterable, body, rest)
+    Accumulator indices k are positions in the list [name] + other carried names the step mentions (sorted)."""
     seen = _seen or set()
+
+    def depth_of(lid):
+        lp = summary.loops.get(lid)
+        return len(lp.ctx.loops) if lp is not None else 0
 
     def rw(t):
         h = head(t)
@@ -287,18 +292,24 @@ def close_loops(summary, term, _seen=None):
             name = t[2]
             if lp is None or not isinstance(name, str) or (t[1], name) in seen:
                 return t
+            d = depth_of(t[1])
             init = lp.init.get(name, ("undef", name))
             upd = lp.update.get(name, ("undef", name))
             used = [n for n in sorted(lp.update) if any(x == ("phi", lp.lid, n) for x in walk(upd))]
             order = [name] + [n for n in used if n != name]
-            m = {("phi", lp.lid, n): ("acc", i) for i, n in enumerate(order)}
-            it = lp.iterable
-            body = subst(upd, m)
+            m = {("phi", lp.lid, n): ("acc", d, i) for i, n in enumerate(order)}
             seen2 = seen | {(t[1], name)}
             extra = tuple((close_loops(summary, lp.init.get(n, ("undef", n)), seen2), close_loops(summary, subst(lp.update.get(n), m), seen2)) for n in order[1:])
-            return ("fold", lp.kind, close_loops(summary, it, seen2), close_loops(summary, init, seen2), close_loops(summary, body, seen2), extra)
+            return ("fold", lp.kind, d, close_loops(summary, lp.iterable, seen2), close_loops(summary, init, seen2), close_loops(summary, subst(upd, m), seen2), extra)
+        if h == "phi":
+            return ("acc", depth_of(t[1]), t[2]) if isinstance(t[2], str) else t
         if h == "iter":
-            return ("elem", t[2])
+            return ("elem", depth_of(t[1]), t[2])
+        if h == "loopret":
+            lp = summary.loops.get(t[1])
+            if lp is None:
+                return t
+            return ("floop", lp.kind, depth_of(t[1]), close_loops(summary, lp.iterable, seen), t[2], t[3])
         return t
     return rewrite(term, rw)
 
